@@ -201,7 +201,7 @@ func (n *SimNode) GQLAs(id immutable.Option[identity.Identity], req string) (map
 func gqlOn(ctx context.Context, s client.Store, req string) (data map[string]any, errs []string) {
 	defer func() {
 		if r := recover(); r != nil {
-			errs = append(errs, fmt.Sprintf("PANIC: %v", r))
+			errs = append(errs, fmt.Sprintf("PANIC: %v @ %s", r, panicSite()))
 		}
 	}()
 	res := s.ExecRequest(ctx, req)
